@@ -9,7 +9,7 @@ from .common_helpers import (
     touni,
     cookie_encode,
     parse_date,
-    HeaderDict, HeaderProperty,
+    HeaderDict, HeaderProperty, _hval,
 )
 from .errors import OmbottException
 
@@ -236,6 +236,7 @@ class BaseResponse:
                     value = value.seconds + value.days * 24 * 3600
             if key == 'expires':
                 value = http_date(value)
+            _hval(value)  # option values are copied into the Set-Cookie header as they are
             self._cookies[name][key.replace('_', '-')] = value
 
     def delete_cookie(self, key, **kwargs):
